@@ -589,6 +589,9 @@ func runC10(c *fw.Check) {
 		c.DistinctN(int64(len(jobs[i].lits)))
 	})
 	c.Invalid = int64(skipped)
+	if fw.HaveLLVM() {
+		c10aggregates(c)
+	}
 	c.Sample(map[string]interface{}{"kind": "half", "literal": "0xH7C01", "class": "nan-signalling", "oracle": "bits(LLVM, input) == bits(LLVM, printed)"})
 	c.Sample(map[string]interface{}{"kind": "double", "literal": "4.9406564584124654e-324", "spelling": "decimal"})
 	c.Sample(map[string]interface{}{"kind": "fp128", "literal": c10native(c10kinds[4], 1, 1, big.NewInt(1))})
